@@ -13,7 +13,7 @@ Require Import TT.Spec.C05Spec TT.Spec.C05Known.
 Require Import TT.Model.C05Parse TT.Proofs.C05ParseProofs.
 Require Import TT.Proofs.TypeParseProofs TT.Proofs.RenderProofs TT.Proofs.C05Proofs TT.Proofs.C05Sweep TT.Proofs.C05Witness TT.Proofs.C05Examples.
 Require Import TT.Proofs.C05PrefixProofs TT.Proofs.C05OracleProofs TT.Model.C05TypeStr TT.Proofs.C05TypeStrProofs TT.Proofs.C05Utf8.
-Require TT.Model.C10Zod TT.Spec.C10Check.
+Require TT.Model.C10Zod TT.Spec.C10Check TT.Proofs.C10Depth.
 Require Import TT.Proofs.C05ZodProofs.
 Import ListNotations.
 Local Open Scope string_scope.
@@ -21,14 +21,14 @@ Local Open Scope string_scope.
 (* The statement for every site and both modes. Without the class premise the faithful model refutes
    it (lemmas *_refuted below). With the premise it is PROVED
    - for every site whose text is a TypeScript type (8 of the 10 site x mode pairs): C05_sound_ts_sites;
-   - for the two Zod-mode schema sites (parameter, field) and hence for ALL sites: C05_sound_all_sites,
-     under (a) a nesting premise tdepth (sem t) < 60 (the expression parser of the specification,
-     Spec/TsModule.pexpr, has the fixed nesting budget 64) and (b) the explicit link hypothesis
-     zod_parse_link: the builder's text parses to the builder's tree,
-       parse_ex (build_schema m ts) = Some (zex_of m ts false)
-     - the round trip the C10 development is proving over the shared lexer layer. Everything else,
-     in particular the reading of that tree (C05_zod_tree_denotes), is proved here.
-   The unconditional statement itself stays a Definition (not asserted). *)
+   - for the two Zod-mode schema sites (parameter, field) and hence for ALL sites in BOTH modes:
+     C05_sound_zod_schema / C05_sound_full_bounded, with two decidable premises added: the nesting
+     bound tsdepth (sem t) < 31 (the expression parser of the specification, Spec/TsModule.pexpr, has the
+     fixed budget 64) and C10Zod.dom (sem t) (the domain of the C10 development's round-trip theorem
+     parse_ex (build_schema m ts) = Some (zex_of m ts false): map keys String / numbers, names not taken).
+     C05_sound_all_sites states the same under that round trip as an explicit hypothesis
+     (zod_parse_link) for the part of the domain C10's theorem does not cover (named or bool map keys).
+   The unbounded statement itself stays a Definition: it cannot hold beyond the parser budget of the spec. *)
 Definition C05_sound_full_statement : Prop :=
   forall (s : site) (md : mode) (t : rty),
     dom_b t = true -> kf_C05 s md [] t = false ->
@@ -135,6 +135,25 @@ Theorem C05_sound_all_sites : zod_parse_link -> forall (s : site) (md : mode) (t
                observe (site_is_type s md) text = Some (expected s [] t).
 Proof. intros Hl s md t Hd. apply sound_all_sites; try constructor; auto. Qed.
 
+(* ... and with NO hypothesis about parsing: the link is the theorem C10LexEx.parse_build of the C10
+   development (premises: the structure lies in C10's domain - map keys String / numbers, names legal
+   TypeScript identifiers that are not taken - and the nesting bound tsdepth < 31, from which
+   C10Depth.budgets derives the parser budgets). This is C05_sound_full_statement with those two
+   decidable premises added: EVERY site, BOTH modes. *)
+Theorem C05_sound_zod_schema : forall (s : site) (md : mode) (t : rty),
+  dom_b t = true -> C10Zod.dom (sem t) = true -> C10Depth.tsdepth (sem t) < 31 ->
+  schema_site s md = true -> kf_C05 s md [] t = false ->
+  exists text, emit_type s md [] t = Some text /\
+               observe (site_is_type s md) text = Some (expected s [] t).
+Proof. intros s md t. apply sound_zod_schema_proved. reflexivity. Qed.
+
+Theorem C05_sound_full_bounded : forall (s : site) (md : mode) (t : rty),
+  dom_b t = true -> C10Zod.dom (sem t) = true -> C10Depth.tsdepth (sem t) < 31 ->
+  kf_C05 s md [] t = false ->
+  exists text, emit_type s md [] t = Some text /\
+               observe (site_is_type s md) text = Some (expected s [] t).
+Proof. intros s md t. apply sound_all_sites_proved. reflexivity. Qed.
+
 (* The three type_to_string variants (command parameters / returns, struct fields, channel messages;
    Model/C05TypeStr.v models them on the larger syn syntax, where they differ on arrays, slices and
    non-type generic arguments) print the same text, tts, on every type of the documented language -
@@ -236,7 +255,8 @@ Example C05_zod_premises :
   dom_b ex_zod = true /\ tdepth (sem ex_zod) = 4 /\ schema_site SField MZod = true /\ kf_C05 SField MZod [] ex_zod = false /\
   zod_clean (sem ex_zod) = true /\
   emit_type SField MZod [] ex_zod = Some (L "z.record(z.string(), z.array(z.tuple([UserSchema, z.coerce.number()])))") /\
-  C10Check.parse_ex (C10Zod.build_schema [] (sem ex_zod)) = Some (C10Zod.zex_of [] (sem ex_zod) false).
+  C10Check.parse_ex (C10Zod.build_schema [] (sem ex_zod)) = Some (C10Zod.zex_of [] (sem ex_zod) false) /\
+  C10Zod.dom (sem ex_zod) = true /\ C10Depth.tsdepth (sem ex_zod) = 3.
 Proof. vm_compute. repeat split; reflexivity. Qed.
 Definition ex_utf8 : rty := RPath (L "Result") [RPath (L "Ärger") []; RPath (L "String") []].
 Example C05_utf8_example :
@@ -290,6 +310,8 @@ Print Assumptions C05_zod_tree_denotes.
 Print Assumptions C05_zod_builders_agree.
 Print Assumptions C05_sound_zod_schema_under_link.
 Print Assumptions C05_sound_all_sites.
+Print Assumptions C05_sound_zod_schema.
+Print Assumptions C05_sound_full_bounded.
 Print Assumptions C05_printers_agree.
 Print Assumptions C05_compositional_vec.
 Print Assumptions C05_compositional_hashset.
